@@ -41,7 +41,7 @@ T = {
  'C18': ('round-trip monitors in both directions under catch_unwind; known classes K3, K4 decided by exact predicates',
          'serde_json values with all three number representations and extremes; json-syntax values of every number class incl. out-of-domain ones'),
  'C19': ('generated programs: json! invocations emitted as Rust source, compiled against the current tree and executed; each compares the constructed value with the parse of the matching text',
-         '8 x 60 (thorough 16 x 500) invocations: nesting, trailing commas, every literal kind, suffixed integers at bounds, duplicate and expression keys, three delimiters'),
+         '8 x 150 (thorough 16 x 500) invocations: nesting, trailing commas, every literal kind, suffixed integers at bounds, duplicate and expression keys, three delimiters'),
  'C20': ('complete enumeration against a BTreeSet model',
          'all 64 sets x 5 constructions, 64x64 set pairs, 64x6 set/kind pairs both ways, 6x6 kind pairs, every next/next_back interleaving of length <=7 on every set, all renderings'),
 }
